@@ -43,6 +43,9 @@ pub struct Stats {
     pub exhaustive_tasks: u64,
     pub random_tasks: u64,
     pub shape_drift: u64,
+    /// panics of the harness itself inside a generated case (never a verdict about the library)
+    pub harness_errors: u64,
+    pub first_harness_error: Option<String>,
     /// order-independent digest of (picks, trace) per configuration (feature-set differential)
     pub digests: BTreeMap<String, u64>,
 }
@@ -76,6 +79,10 @@ impl Stats {
         self.exhaustive_tasks += o.exhaustive_tasks;
         self.random_tasks += o.random_tasks;
         self.shape_drift += o.shape_drift;
+        self.harness_errors += o.harness_errors;
+        if self.first_harness_error.is_none() {
+            self.first_harness_error = o.first_harness_error;
+        }
         for (k, v) in o.digests {
             let e = self.digests.entry(k).or_default();
             *e = e.wrapping_add(v);
@@ -305,6 +312,10 @@ pub fn run_task(task: &Task, crumb: &mut Crumb) -> Stats {
                 // the last failing run is the shrunk one (proptest re-runs the minimal case last)
                 if let Some((v, picks, trace)) = last_fail.into_inner() {
                     record_violation(&mut stats, task, &v, &picks, &trace);
+                } else {
+                    // proptest caught a panic of the harness itself: inconclusive, not a verdict
+                    stats.harness_errors += 1;
+                    stats.first_harness_error = Some(format!("{} {}: {:?}", task.entry.name, shape_name(task.shape), res.as_ref().err().map(|e| e.to_string())));
                 }
             }
         }
@@ -451,6 +462,7 @@ pub fn stats_json(prop: &str, tier: &str, seed: u64, profile: &str, rule: &str, 
     let _ = write!(o, " \"evaluations\": {}, \"distinct_nontrivial\": {}, \"rule\": {}, \"bound\": {},\n", stats.evaluations, stats.nontrivial.len(), jstr(rule), jstr(bound));
     let _ = write!(o, " \"exhaustive_tasks\": {}, \"random_tasks\": {}, \"avoided_by_construction\": {}, \"desyncs\": {}, \"shape_drift\": {},\n", stats.exhaustive_tasks, stats.random_tasks, stats.avoided, stats.desyncs, stats.shape_drift);
     let _ = write!(o, " \"first_desync\": {},\n", stats.first_desync.as_deref().map(jstr).unwrap_or("null".into()));
+    let _ = write!(o, " \"harness_errors\": {}, \"first_harness_error\": {},\n", stats.harness_errors, stats.first_harness_error.as_deref().map(jstr).unwrap_or("null".into()));
     let _ = write!(o, " \"wall_s\": {:.3},\n \"classes\": {{", wall_s);
     let mut first = true;
     for (k, v) in &stats.classes {
